@@ -172,6 +172,7 @@ Always(o) == Always_C05(o) \cup Always_C05b(o) \cup Always_C02(o) \cup Always_C0
 Quiet(o, q) ==
   LET W == {q.waiting[i] : i \in DOMAIN q.waiting}  L == {q.lost[i] : i \in DOMAIN q.lost} IN
   {<<"C03", "call-never-returned", t>> : t \in W}
+  \cup {<<"C05", "retry-call-never-returned", t>> : t \in {t \in W : Call(o, t).kind = "retry"}}
   \cup {<<"C02", "call-lost", t>> : t \in IF o.faults = 0 /\ o.closerStart = {} THEN L ELSE {}}
   \cup (IF q.probe \in {"hung", "foreign"} THEN {<<"C03", "probe-" \o q.probe, 0>>} ELSE {})
   \* C05: a reconnecting client is usable again once the server is reachable (the probe is issued after recovery)
